@@ -77,6 +77,10 @@ EXPLANATION += (
     ' Round 8: all_parents lists the levels in hierarchy order and is not re-ordered (producer side of R-PROV/deepest-first).'
 )
 
+EXPLANATION += (
+    ' Round 9: the cache group read for a parent has one key expression on every path, derived from parent_node (R-PROV/group-of-parent).'
+)
+
 RULE_TEXT = (
     "one obligation per cache-path argument, per indexed comprehension, "
     "per cache dataset, per log conditional, per error condition, per "
